@@ -35,6 +35,12 @@ def check(run):
         run.guard("C13.6.priority-suffix", cfg, lambda: rule_priority(run, F, cfg))
         run.guard("C13.6.priority-suffix", cfg + "/slices", lambda: rule_priority_slices(run, F, cfg))
         run.guard("C13.5.lookup", cfg + "/registration", lambda: rule_registration_atomic(run, F, cfg))
+        from . import wire_keys as _wk
+        run.guard("C13.7.resource-wire-keys", cfg, lambda: run.floor(
+            "C13.7.resource-wire-keys", f"resource keys / variants compared [{cfg}]",
+            _wk.rule_keys(run, "C13.7.resource-wire-keys", F, cfg, _wk.RESOURCE, _wk.RESOURCE_VARIANTS,
+                          "A resource list that spells the key as before would otherwise load with the field defaulted: "
+                          "a resource that requires a permission would become redirectable, an alias or kind would be lost"), 14))
         b = run.borrow("C06", why="redirect rules added one by one must reach the same lists as in a batch build")
         run.guard("C13.via.C06.4.batch-incremental", cfg, lambda: _C06.rule_routing(b, F, cfg))
         b2 = run.borrow("C05", only=r"field:(modifier_option|mask)\b", why="redirect rules with different targets must not be fused")
@@ -338,15 +344,32 @@ def rule_priority_slices(run, F, cfg):
 
 
 def rule_registration_atomic(run, F, cfg):
-    """add_resource registers a resource and its aliases all-or-nothing: every name collision check runs before the
-    first insertion, so a rejected resource leaves no alias behind that points at nothing (a later resource with
-    that name would be refused, or served under an alias it never declared)"""
+    """add_resource registers a resource and its aliases all-or-nothing: every check that can reject the resource runs
+    before the first write to the name / alias tables, so a rejected resource leaves no alias behind that points at
+    nothing (a later resource with that name would be refused, or served under an alias it never declared)"""
     a = F.fn("resources::resource_storage::ResourceStorage::add_resource")
-    run.touched(a)
-    inserts = [b for b, t in a.calls(r"^std::collections::HashMap::insert$")]
+    cl = F.closures_of(a.name)
+    run.touched(a, *cl)
+    MUT = (r"^std::collections::HashMap::(insert|remove|remove_entry|extend|retain|clear|drain)$|"
+           r"^std::collections::hash_map::(VacantEntry::(insert|insert_entry)|OccupiedEntry::(insert|remove|remove_entry)|"
+           r"Entry::(or_insert|or_insert_with|or_insert_with_key|or_default|and_modify|insert_entry))$|Extend<.*>>::extend$")
+    mut_closures = {c.name for c in cl if c.calls(MUT)}
+    writes = [(b, strip_generics(t["callee"]).split("::")[-1]) for b, t in a.calls(MUT)]
+    # a call that receives a closure whose body writes (for_each(|alias| self.aliases.insert(..)))
+    closure_of_local = {}
+    for b, i, st in a.statements():
+        if st["k"] == "assign" and st["rv"]["k"] == "agg" and st["rv"].get("agg") == "closure" and st["rv"]["closure"] in mut_closures:
+            closure_of_local[st["pl"]["l"]] = st["rv"]["closure"]
+    for b, t in a.calls():
+        for arg in t["args"]:
+            if arg.get("k") in ("move", "copy") and arg["pl"]["l"] in closure_of_local:
+                writes.append((b, "via-closure"))
     errs = [b for b, i, st in a.statements()
-            if st["k"] == "assign" and st["rv"]["k"] == "agg" and st["rv"].get("variant") == "NameAlreadyAdded"]
-    late = [(i_, e) for i_ in inserts for e in errs if e in a.reachable_from(i_)]
-    run.ob("C13.5.lookup", "registration-all-or-nothing", bool(inserts) and bool(errs) and not late,
-           f"no NameAlreadyAdded rejection is reachable once add_resource has inserted anything ({len(inserts)} insertions, "
-           f"{len(errs)} rejections, rejections reachable after an insertion: {late})", site=a.loc(0), config=cfg)
+            if st["k"] == "assign" and st["rv"]["k"] == "agg" and st["rv"].get("adt") == "std::result::Result"
+            and st["rv"].get("variant") == "Err"]
+    errs += [b for b, t in a.calls(r"FromResidual<.*>>::from_residual$")]
+    late = sorted({(w, e) for w, _ in writes for e in errs if e != w and e in a.reachable_from(w)})
+    run.ob("C13.5.lookup", "registration-all-or-nothing", len(writes) >= 2 and bool(errs) and not late,
+           f"no rejection is reachable once add_resource has written to the resource / alias tables "
+           f"({len(writes)} writes {sorted(set(k for _, k in writes))}, {len(errs)} error exits; error exits reachable "
+           f"after a write: {[(a.loc(w), a.loc(e)) for w, e in late][:3]})", site=a.loc(late[0][0]) if late else a.loc(0), config=cfg)
